@@ -46,6 +46,7 @@ type Result struct {
 type Enc struct {
 	Variadic bool   `json:"variadic,omitempty"` // append a variadic parameter
 	Nest     int    `json:"nest,omitempty"`     // wrap every parameter object Nest levels deeper
+	RNest    bool   `json:"rnest,omitempty"`    // result objects hold all but their first field in a nested result object
 	ViaOpt   bool   `json:"viaopt,omitempty"`   // name / group / As given by Provide options instead of tags
 	NoErr    bool   `json:"noerr,omitempty"`    // no trailing error result
 	ErrFirst bool   `json:"errfirst,omitempty"` // the error result comes first instead of last
